@@ -117,7 +117,7 @@ VARIABLES
   \* kernel
   kin, kout,
   \* ghosts
-  hist, dcat, consumed, written, sched
+  hist, ninv, last, doneCnt, dcat, consumed, written, sched
 
 cvars == <<cstate, nops, nbars, nsetl, nseth, closeCall, stopCall, released, wsub>>
 chvars == <<flags, clow, chigh, chFd>>
@@ -126,7 +126,7 @@ libvars == <<op, opq, grp, fdref, dord>>
 clvars == <<clq, cleanupRuns>>
 kvars == <<kin, kout>>
 gvars == <<consumed, written>>
-hvars == <<hist, dcat>>
+hvars == <<hist, ninv, last, doneCnt, dcat>>
 vars == <<cvars, chvars, chq, bq, bqSusp, stvars, libvars, bars, clvars, kvars, hvars, gvars, sched>>
 
 Blk(k, o, v) == [k |-> k, o |-> o, v |-> v]
@@ -136,9 +136,10 @@ NoneOp == [st |-> "none", dir |-> "R", len |-> 0, wdata |-> <<>>, low |-> 0, hig
            data |-> <<>>, hasbuf |-> FALSE, bufsiz |-> 0, buflen |-> 0, buf |-> <<>>,
            undel |-> 0, total |-> 0, err |-> 0, ac |-> FALSE]
 
-RECURSIVE SumHist(_)
-SumHist(S) == IF S = {} THEN 0 ELSE LET o == CHOOSE x \in S : TRUE IN Len(hist[o]) + SumHist(S \ {o})
-NH == SumHist(Ops)
+RECURSIVE SumInv(_)
+SumInv(S) == IF S = {} THEN 0 ELSE LET o == CHOOSE x \in S : TRUE IN ninv[o] + SumInv(S \ {o})
+NH == SumInv(Ops)
+NoInv == [done |-> FALSE, data |-> <<>>, null |-> TRUE, err |-> 0]
 Log(a, v, w) == sched' = IF Rec THEN Append(sched, [a |-> a, v |-> v, w |-> w, nh |-> NH]) ELSE sched
 
 Init ==
@@ -155,6 +156,7 @@ Init ==
   /\ kin = [wpos |-> IF InFile THEN MaxIn ELSE 0, rpos |-> 0, closed |-> InFile]
   /\ kout = [content |-> <<>>, pread |-> 0, hup |-> FALSE]
   /\ hist = [o \in Ops |-> <<>>] /\ dcat = [o \in Ops |-> <<>>]
+  /\ ninv = [o \in Ops |-> 0] /\ last = [o \in Ops |-> NoInv] /\ doneCnt = [o \in Ops |-> 0]
   /\ consumed = [o \in Ops |-> <<>>] /\ written = [o \in Ops |-> <<>>]
   /\ sched = <<>>
 
@@ -278,7 +280,7 @@ DeliverData(r, fl, stopped, force) ==
   IN
   IF early THEN [r |-> r, post |-> <<>>]
   ELSE IF r.dir = "R" THEN
-    LET data == IF r.buflen > 0 THEN r.data \o r.buf ELSE r.data
+    LET data == IF r.buflen > 0 THEN Norm(r.data \o r.buf) ELSE r.data
         keep == IF Mut = "dup_deliver" THEN data ELSE IF deliver THEN <<>> ELSE data
         r2 == IF r.buflen > 0
               THEN [r1 EXCEPT !.buf = <<>>, !.buflen = 0, !.hasbuf = FALSE, !.bufsiz = 0, !.data = keep]
@@ -471,10 +473,10 @@ PerformRead(d, o, KS(_, _)) ==
       space == r.bufsiz - r.buflen IN
   \/ /\ avail > 0
      /\ \E k \in KS(o, Min(space, avail)) :
-          LET r2 == [r EXCEPT !.buf = Append(@, <<kin.rpos, k>>), !.buflen = @ + k, !.total = @ + k] IN
+          LET r2 == [r EXCEPT !.buf = Norm(Append(@, <<kin.rpos, k>>)), !.buflen = @ + k, !.total = @ + k] IN
           /\ op' = [op EXCEPT ![o] = r2]
           /\ kin' = [kin EXCEPT !.rpos = @ + k]
-          /\ consumed' = [consumed EXCEPT ![o] = Append(@, <<kin.rpos, k>>)]
+          /\ consumed' = [consumed EXCEPT ![o] = Norm(Append(@, <<kin.rpos, k>>))]
           /\ SetPend(d, o, IF r2.total = r2.len THEN "COMPLETE" ELSE "DELIVER")
      /\ UNCHANGED <<kout, written>>
   \/ /\ avail = 0 /\ kin.closed                 \* EOF
@@ -497,8 +499,8 @@ PerformWrite(d, o, KS(_, _)) ==
           LET bytes == Sub(r.data, r.buflen, k)
               r2 == [r EXCEPT !.buflen = @ + k, !.total = @ + k] IN
           /\ op' = [op EXCEPT ![o] = r2]
-          /\ kout' = [kout EXCEPT !.content = @ \o bytes]
-          /\ written' = [written EXCEPT ![o] = @ \o bytes]
+          /\ kout' = [kout EXCEPT !.content = Norm(@ \o bytes)]
+          /\ written' = [written EXCEPT ![o] = Norm(@ \o bytes)]
           /\ SetPend(d, o, IF r2.total = r2.len THEN "COMPLETE" ELSE "DELIVER")
      /\ UNCHANGED <<kin, consumed>>
   \/ /\ ~kout.hup /\ space = 0                   \* EAGAIN
@@ -581,7 +583,11 @@ SourceFire(d) ==
 HandlerRun(o) ==
   /\ opq[o] # <<>>
   /\ LET blk == Head(opq[o]) IN
-     /\ hist' = [hist EXCEPT ![o] = Append(@, blk.inv[1])]
+     \* ghosts: hist (only kept when schedules are recorded), the last invocation, counters
+     /\ hist' = IF Rec THEN [hist EXCEPT ![o] = Append(@, blk.inv[1])] ELSE hist
+     /\ ninv' = [ninv EXCEPT ![o] = @ + 1]
+     /\ last' = [last EXCEPT ![o] = blk.inv[1]]
+     /\ doneCnt' = [doneCnt EXCEPT ![o] = IF blk.inv[1].done THEN @ + 1 ELSE @]
      /\ dcat' = [dcat EXCEPT ![o] = Norm(@ \o blk.inv[1].data)]
      /\ IF Len(blk.inv) = 1
         THEN /\ opq' = [opq EXCEPT ![o] = Tail(@)]
@@ -683,7 +689,7 @@ FairSpec == Spec /\ Fair
 
 (* ------------------------------ the property (C14) ------------------------------ *)
 \* dcat[o] = the data passed to o's handler so far, concatenated in invocation order
-DoneSeen(o) == hist[o] # <<>> /\ hist[o][Len(hist[o])].done
+DoneSeen(o) == doneCnt[o] >= 1
 Submitted == {o \in Ops : op[o].st # "none"}
 
 TypeOK ==
@@ -700,22 +706,22 @@ ReadConservation ==
 \* ... never larger per invocation than the high-water mark
 HighWater ==
   \A o \in Submitted : op[o].dir = "R" /\ op[o].st \notin {"chq", "imm", "rejected"} =>
-     \A i \in 1 .. Len(hist[o]) : Size(hist[o][i].data) <= op[o].high
+     Size(last[o].data) <= op[o].high
 \* write: bytes that reached the descriptor followed by the data reported as unwritten are
 \* the submitted data; every intermediate report is the tail of the submitted data that
 \* had not been written when it was made
 WriteConservation ==
   \A o \in Submitted : op[o].dir = "W" =>
      /\ IsPrefix(written[o], op[o].wdata)
-     /\ \A i \in 1 .. Len(hist[o]) :
-          LET inv == hist[o][i] IN
+     /\ ninv[o] > 0 =>
+          LET inv == last[o] IN
           /\ inv.done => SameBytes(written[o] \o inv.data, op[o].wdata)
           /\ ~inv.done => /\ SameBytes(inv.data, Sub(op[o].wdata, op[o].len - Size(inv.data), INF))
                           /\ Size(written[o]) + Size(inv.data) >= op[o].len
 \* done exactly once, on the last invocation
 DoneOnceLast ==
-  \A o \in Ops : \A i \in 1 .. Len(hist[o]) :
-     hist[o][i].done => (i = Len(hist[o]) /\ opq[o] = <<>>)
+  \A o \in Ops : /\ doneCnt[o] <= 1
+                  /\ doneCnt[o] = 1 => (last[o].done /\ opq[o] = <<>>)
 \* operations of one direction complete, and touch the descriptor, in submission order
 RECURSIVE Increasing(_)
 Increasing(s) == Len(s) <= 1 \/ (s[1] < s[2] /\ Increasing(Tail(s)))
@@ -730,7 +736,7 @@ CompletionOrder ==
         /\ (op[o2].total > 0 /\ op[o1].st \in {"sq", "listed"}) => FALSE
 \* a barrier runs between the operations submitted before and after it
 IoLive(o) == op[o].st \in {"sq", "listed"}
-NotStarted(o) == op[o].st \in {"none", "chq", "created", "imm"} /\ hist[o] = <<>> /\ opq[o] = <<>> /\ op[o].total = 0
+NotStarted(o) == op[o].st \in {"none", "chq", "created", "imm"} /\ ninv[o] = 0 /\ opq[o] = <<>> /\ op[o].total = 0
 BarrierBetween ==
   \A b \in Bars : bars[b].st = "running" =>
      /\ \A o \in Ops : o <= bars[b].before => op[o].st \in {"disposed", "rejected"}
@@ -739,7 +745,8 @@ BarrierBetween ==
 ClosedEcanceled ==
   \A o \in Submitted : op[o].ac =>
      /\ consumed[o] = <<>> /\ written[o] = <<>>
-     /\ \A i \in 1 .. Len(hist[o]) : hist[o][i].done /\ hist[o][i].err = ECANCELED /\ Size(hist[o][i].data) = (IF op[o].dir = "W" THEN op[o].len ELSE 0)
+     /\ ninv[o] <= 1
+     /\ ninv[o] = 1 => (last[o].done /\ last[o].err = ECANCELED /\ Size(last[o].data) = (IF op[o].dir = "W" THEN op[o].len ELSE 0))
      /\ op[o].st \in {"chq", "imm", "created", "rejected"}
 \* the cleanup handler runs exactly once, after every handler of the operations submitted
 \* before the channel was closed
@@ -752,8 +759,8 @@ CleanupOnceAfterAll ==
 StopFlagsFinal ==
   \A o \in Ops : \A i \in 1 .. Len(opq[o]) :
      LET blk == opq[o][i]
-         last == blk.inv[Len(blk.inv)] IN
-     (blk.sp /\ last.done) => last.err # 0
+         lst == blk.inv[Len(blk.inv)] IN
+     (blk.sp /\ lst.done) => lst.err # 0
 
 Quiescent == /\ chq = <<>> /\ bq = <<>> /\ \A d \in Dirs : sq[d] = <<>> /\ pend[d].o = 0
              /\ \A o \in Ops : opq[o] = <<>>
